@@ -129,9 +129,12 @@ def case(rng: Any, ctx: Ctx, index: int) -> None:
 
     def build() -> Any:
         segs, tags = [], []
-        for _ in range(k):
-            nm = names[int(rng.integers(len(names)))]
-            tag, seg = patterns.PATTERNS[nm](rng)
+        for j in range(k):
+            nm = names[(index // max(1, ctx.nshards)) % len(names)] if j == 0 else names[int(rng.integers(len(names)))]
+            if nm == 'blocks' and j == 0:
+                tag, seg = patterns.p_blocks(rng, (index // max(1, ctx.nshards)) // len(names))
+            else:
+                tag, seg = patterns.PATTERNS[nm](rng)
             segs.append(seg)
             tags.append(tag)
         n_left = int(rng.integers(0, maxctx // 2 + 1))
